@@ -37,6 +37,9 @@ func runC18(p *Prog, r *Report) {
 	if want("C18.5") {
 		ruleReadOnlyNeverMutates(p, r, "C18.5")
 	}
+	if want("C18.7") {
+		ruleRecoverySiblings(p, r, "C18.7")
+	}
 	if want("C18.6") {
 		r.Begin("C18.6", "E-EXH", "a read-only DB rejects writes and keeps serving reads: SetReadOnly installs ErrReadOnly as the persistent compaction error; every select that acquires the write lock listens for it (checked with the channel inventory); the persistent-error state is entered for ErrReadOnly and corruption only", 2)
 		if fn := resolveFn(p, r, "leveldb", "(*DB).SetReadOnly"); fn != nil {
